@@ -132,12 +132,20 @@ def verify_function(reg, contract, prefix="", fixed=None):
             t = argtypes.get(pn)
             if t is None:
                 raise Unsupported("contract of %s gives no type for parameter %s" % (contract.fq, pn))
+            fixlen = None
+            if t.startswith("list") and "#" in t:
+                # "list:<elem>#n": a list parameter whose length is the literal n in this case of arg_cases
+                t, fixlen = t.rsplit("#", 1)
             if fixed and pn in fixed:
                 from .symexec import SV
 
                 v = SV("str", ctx.strid(fixed[pn]), fixed[pn])
             else:
                 v = fresh_of_type(ex, t, pn)
+            if fixlen is not None:
+                from .symexec import AII
+
+                ctx.set_field_array(st, "len", z3.Store(ctx.field_array(st, "len", AII), v.z, z3.IntVal(int(fixlen))))
             st.env[pn] = v
             st.defd[pn] = z3.BoolVal(True)
             res.params.append((pn, v))
